@@ -407,7 +407,6 @@ unsafe fn dispose_general_node<T: RcObject>(
     crate::verif::yp(crate::verif::site::DISP_LOAD);
     let state = State::from_raw(rc.state.load(Ordering::SeqCst));
     let node_epoch = state.epoch();
-    debug_assert_eq!(state.strong(), 0);
 
     #[cfg(feature = "circ_verif")]
     crate::verif::yp(crate::verif::site::DISP_EPOCH);
@@ -417,7 +416,21 @@ unsafe fn dispose_general_node<T: RcObject>(
 
     // Note that checking whether it is a root is necessary, because if `node_epoch` is
     // old enough, `modu.le` may return false.
-    if depth == 0 || modu.le(node_epoch as _, curr_epoch as isize - 3) {
+    // A non-root node is not marked as destructed yet: mark it, unless an upgrade got in
+    // after its count hit zero (then the deferred `try_destruct` below sorts it out).
+    if depth == 0
+        || (modu.le(node_epoch as _, curr_epoch as isize - 3)
+            && state.strong() == 0
+            && rc
+                .state
+                .compare_exchange(
+                    state.as_raw(),
+                    state.with_destructed(true).as_raw(),
+                    Ordering::SeqCst,
+                    Ordering::SeqCst,
+                )
+                .is_ok())
+    {
         // The current node is immediately reclaimable.
         #[cfg(feature = "circ_verif")]
         crate::verif::ev(crate::verif::event::DESTRUCT_BEGIN, ptr as usize, depth);
